@@ -333,6 +333,38 @@ pub fn run(ctx: &Ctx) -> (Spec, Report) {
             jobs.push(Job { tree, lang, multi, variants, label: "fresh-processes-reexport".into() });
         }
     }
+    // (c') random name-resolution ambiguities: one name defined in 2-3 crates (with or without different serde renames),
+    // referenced from a user crate through explicit, glob, qualified and facade imports spread over one or two files
+    for k in 0..ctx.tier.pick(18, 120) {
+        let lang = [LangId::Ts, LangId::Kotlin, LangId::Swift, LangId::Python][k % 4];
+        let providers = ["left", "right", "third"];
+        let np = rng.range(2, 3);
+        let mut files = vec![];
+        for (pi, pname) in providers.iter().enumerate().take(np) {
+            let ren = if rng.coin() { format!("#[serde(rename = \"{}Thing\")]\n", crate::gen::cap(pname)) } else { String::new() };
+            files.push(SrcFile { path: format!("{pname}/src/lib.rs"), source: format!("#[typeshare]\n{ren}pub struct Thing {{ pub p{pi}: u32 }}\n#[typeshare]\npub struct Only{} {{ pub q: u32 }}\n", crate::gen::cap(pname)) });
+        }
+        // every file must be valid Rust on its own: exactly one provider of `Thing` is in scope in each module
+        // (an explicit import, a grouped import, a single glob, or a re-exporting facade); the two modules of the
+        // user crate may well pick different providers
+        let mut file_src = vec![];
+        for n in 1..=2usize {
+            let pname = providers[rng.below(np)];
+            let form = match rng.below(5) {
+                0 => format!("use {pname}::Thing;"),
+                1 => format!("use {pname}::*;"),
+                2 => format!("use {pname}::{{Thing, Only{}}};", crate::gen::cap(pname)),
+                3 => "use facade::Thing;".to_string(),
+                _ => format!("use {pname}::Thing;\nuse {}::Only{};", providers[(rng.below(np) + 1) % np], crate::gen::cap(providers[(rng.below(np) + 1) % np])),
+            };
+            file_src.push(format!("{form}\n#[typeshare]\npub struct User{n} {{ pub t: Thing, pub ts: Vec<Thing> }}\n"));
+        }
+        files.push(SrcFile { path: "user/src/lib.rs".into(), source: file_src[0].clone() });
+        files.push(SrcFile { path: "user/src/second.rs".into(), source: file_src[1].clone() });
+        let tree = Tree { files, n_source_files: np + 2, has_consts: false };
+        let variants = (0..ctx.tier.pick(20, 60)).map(|i| (format!("process#{i}"), vec![])).collect();
+        jobs.push(Job { tree, lang, multi: true, variants, label: "fresh-processes-ambiguous-names".into() });
+    }
     for &lang in ALL_LANGS.iter() {
         let items = gen_items(&mut rng, 14, langs_const.contains(&lang));
         let mut tree = layout(&items, 7, 3, &mut rng);
@@ -375,7 +407,7 @@ pub fn run(ctx: &Ctx) -> (Spec, Report) {
                         let cls = diff_class(job.lang, rf, &r.files);
                         let dim = vlabel.split(|c| c == ':' || c == '=' || c == '#').next().unwrap_or("").to_string();
                         rep.violate(
-                            format!("C06|{mode}|{}|{dim}|{cls}", if job.label.contains("reexport") { "reexported-name-in-two-crates" } else { "generated-tree" }),
+                            format!("C06|{mode}|{}|{dim}|{cls}", if job.label.contains("reexport") { "reexported-name-in-two-crates" } else if job.label.contains("ambiguous") { "ambiguous-names" } else { "generated-tree" }),
                             format!("{lname} {mode}: output under {vlabel} differs from output under {rl} ({cls})"),
                             json!({"language": lname, "mode": mode, "workload": job.label, "variant_a": rl, "variant_b": vlabel,
                                    "files": job.tree.files.iter().map(|f| json!({"path": f.path, "source": f.source})).collect::<Vec<_>>(),
